@@ -250,3 +250,76 @@ func VerifC18_BaseCloseStops(h *zz.H) {
 	<-subDone
 	h.Assert(w.afterClose <= 1, "C18: after Close returns at most the notifications of one further received message are delivered")
 }
+
+// c18PollImpl: the first stream of a Poll query - Connected, then the sync that ends the initial
+// round; a later poll trigger is never answered (Recv blocks until the transport is closed).
+type c18PollImpl struct {
+	handler NotificationHandler
+	step    int
+	closed  chan struct{}
+	mu      sync.Mutex
+	synced  chan bool
+	polled  chan bool
+}
+
+func (i *c18PollImpl) Subscribe(ctx context.Context, q Query) error {
+	i.handler = q.NotificationHandler
+	return nil
+}
+func (i *c18PollImpl) Poll() error {
+	i.polled <- true
+	return nil
+}
+func (i *c18PollImpl) Close() error {
+	i.mu.Lock()
+	defer i.mu.Unlock()
+	select {
+	case <-i.closed:
+	default:
+		close(i.closed)
+	}
+	return nil
+}
+func (i *c18PollImpl) Recv() error {
+	i.step++
+	switch i.step {
+	case 1:
+		return i.handler(Connected{})
+	case 2:
+		i.handler(Sync{})
+		i.synced <- true
+		return ErrStopReading
+	}
+	<-i.closed // the target never answers the poll trigger
+	return errors.New("transport closed")
+}
+
+// VerifC18_PollClose: a reconnecting client with a Poll query; after the initial round the
+// application polls, the target never answers, and Close is called while that Poll is in flight
+// (reconnect attempts hang in their dial until the context ends): Close, Poll and Subscribe all
+// return.
+func VerifC18_PollClose(h *zz.H) {
+	impl := &c18PollImpl{closed: make(chan struct{}), synced: make(chan bool, 1), polled: make(chan bool, 1)}
+	first := true
+	RegisterTest("v", func(ctx context.Context, d Destination) (Impl, error) {
+		if first {
+			first = false
+			return impl, nil
+		}
+		<-ctx.Done() // every later dial hangs until the client is closed
+		return nil, ctx.Err()
+	})
+	rc := Reconnect(&BaseClient{}, nil, nil)
+	q := Query{Addrs: []string{"a"}, Target: "t", Type: Poll, Queries: []Path{{"x"}}, NotificationHandler: func(Notification) error { return nil }}
+	subDone := make(chan error, 1)
+	go func() { subDone <- rc.Subscribe(context.Background(), q, "v") }()
+	<-impl.synced // the initial round is complete
+	pollDone := make(chan error, 1)
+	go func() { pollDone <- rc.Poll() }()
+	<-impl.polled // the poll trigger went out; its answer never comes
+	rc.Close()
+	h.Cover("Close returned while a Poll was in flight")
+	<-pollDone
+	err := <-subDone
+	h.Assert(err != nil, "C18: Subscribe returns after Close")
+}
